@@ -469,7 +469,8 @@ pub fn release_snapshots_scenario(seed: u64, n_announces: u64) -> (u64, u64, Vec
     let Ok(built) = b.build() else { return (0, 0, vec![]) };
     let mut node = built.node;
     let own_tp_text = format!("{:?}", node.inst().time_properties_ds());
-    let src = Src::new(clock_id(0x10).0, 1);
+    // the parent's port number: ordinary, and the two ends of the range
+    let src = Src::new(clock_id(0x10).0, [1u16, 0, 65535][(seed / 4 % 3) as usize]);
     let mut problems = vec![];
     let mut states = 0u64;
     let mut max_writes_per_call = 0u64;
